@@ -1,6 +1,6 @@
 (* C09 - data orders are drawn uniformly from those compatible with the tree; the reported density is
    1 / (number of such orders).  Statements only; proofs live in Proofs/Perm*.v. *)
-From PV Require Import Model.Perm Proofs.PermProofs Proofs.PermSound Proofs.PermComplete Proofs.PermNoDup.
+From PV Require Import Model.Perm Proofs.PermProofs Proofs.PermSound Proofs.PermComplete Proofs.PermNoDup Proofs.PermDensity.
 From Coq Require Import Permutation.
 
 (* the sampler's law is the uniform law on the enumerated list of orders, for every tree / forest *)
@@ -42,6 +42,13 @@ Theorem C09_incompatible_order_never_drawn : forall F o,
   ~ (Permutation (fpoints F) o /\ frespects o F) -> E (fsample F) (ind o) = 0.
 Proof. exact fsample_point_mass_incompatible. Qed.
 Print Assumptions C09_incompatible_order_never_drawn.
+
+(* the conditional density of the order given the tree (1 / count on compatible orders, 0 elsewhere) sums to one over
+   all permutations of the data points: this is premise (iii) of C01_pg_update_invariant *)
+Theorem C09_order_density_sums_to_one : forall F,
+  NoDup (fpoints F) -> sumq (map (order_density F) (perms (fpoints F))) = 1.
+Proof. exact order_density_sums_to_one. Qed.
+Print Assumptions C09_order_density_sums_to_one.
 
 (* the density (fixed code): count = number of enumerated orders *)
 Theorem C09_density_is_inverse_count : forall F, fcount F = qn (length (forders F)).
